@@ -22,7 +22,8 @@ for sid in ids:
     checks = meta.get("caught_by") or [meta.get("property")]
     wt = f"/tmp/wt/reseed_{sid}"
     sh(f"git -C /repo worktree remove --force {wt}")
-    r = sh(f"git -C /repo worktree add -q {wt} HEAD")
+    base = meta["repo_head"] if "base_note" in meta else "HEAD"  # a change made moot by a later fix: stays on its own base
+    r = sh(f"git -C /repo worktree add -q {wt} {base}")
     assert r.returncode == 0, r.stderr
     try:
         a = sh(f"git -C {wt} apply --3way {d}/patch.diff")
